@@ -177,7 +177,7 @@ def _registry_task(name):
 
 
 _EXC = {c.__name__: c for c in [ValueError, KeyError, LookupError, ZeroDivisionError, ArithmeticError, TypeError, IndexError,
-                                Exception, NotImplementedError, RuntimeError, L.LibError, L.LibSubError]}
+                                Exception, NotImplementedError, RuntimeError, L.LibError, L.LibSubError, L.BusyError]}
 
 
 def from_tree(t):
@@ -350,6 +350,9 @@ class Gen:
         r = self.rng
         k = r.randrange(9)
         self.f("err-leaf")
+        if self.modes == (None,) and not self.allow_async and r.random() < 0.06:
+            self.f("unpicklable-error")
+            return self.t("busy")(self.tag())
         if k <= 3:
             if self.allow_async and r.random() < 0.3:
                 self.f("async")
